@@ -115,3 +115,11 @@ func runDefault(body func(), maxSteps int) *vsched.Exec {
 	}()
 	return vsched.Run(body, vsched.Options{MaxSteps: maxSteps})
 }
+
+// report records a violation found inside a case and counts it by class
+// (coverage.counters "alarm_<class>"), so that the classes that fired are
+// visible in the evidence.
+func report(t *vlib.T, sub, class string, detail any, format string, a ...any) {
+	t.Count("alarm_"+class, 1)
+	t.SubViolation(sub, class, detail, format, a...)
+}
